@@ -31,7 +31,7 @@ func VHarnessVerifyProofs() {
 			v.Assume(v.Not(v.SamePriv(keys[i], keys[j])))
 		}
 	}
-	kind := v.Int("case", 0, 8)
+	kind := v.Int("case", 0, 9)
 	var p cashu.Proof
 	expectOK := false
 	switch kind {
@@ -72,17 +72,27 @@ func VHarnessVerifyProofs() {
 			gC, ok := vhParsePoint(g.C)
 			v.Assume(ok)
 			p.C = hex.EncodeToString(v.NegPub(gC).SerializeCompressed())
+		case 9: // the amount mutation again, behind a genuine first input (the gate must hold for every position of a request)
+			p.Amount = v.U64("mut.amount")
+			v.Assume(p.Amount != g.Amount)
 		case 7: // oversize secret (a genuine signature on it)
 			p = env.genuineProof("big")
 			v.Assume(len(p.Secret) > cashu.MAX_SECRET_LENGTH)
 		}
 	}
-	err := m.verifyProofs(cashu.Proofs{p}, []string{vhY(p.Secret)})
+	inputs, Ys := cashu.Proofs{p}, []string{vhY(p.Secret)}
+	if kind == 9 {
+		first := env.genuineProof("first")
+		v.Assume(len(first.Secret) <= cashu.MAX_SECRET_LENGTH)
+		v.Assume(first.Secret != p.Secret)
+		inputs, Ys = cashu.Proofs{first, p}, []string{vhY(first.Secret), vhY(p.Secret)}
+	}
+	err := m.verifyProofs(inputs, Ys)
 	if kind == 0 {
 		v.Assert((err == nil) == expectOK, "C04 every unspent proof honestly signed by any keyset of this mint (active or inactive) is accepted")
 		v.Reach("genuine")
 	} else {
-		v.Assert(err != nil, fmt.Sprintf("C04 forged or mutated proof is rejected (case %d: 1 arbitrary, 2 amount, 3 keyset id, 4 C of another proof, 5 other C, 6 secret, 7 oversize secret, 8 parity bit of C flipped)", kind))
+		v.Assert(err != nil, fmt.Sprintf("C04 forged or mutated proof is rejected (case %d: 1 arbitrary, 2 amount, 3 keyset id, 4 C of another proof, 5 other C, 6 secret, 7 oversize secret, 8 parity bit of C flipped, 9 amount behind a genuine first input)", kind))
 		v.Reach("mutated")
 	}
 	if err == nil {
@@ -122,25 +132,38 @@ func (env *vhEnv) anyProofFree(tag string) cashu.Proof {
 func VHarnessSignAndFees() {
 	env := vhNewEnv(2)
 	m := env.m
-	msg := vhFreeOutput("out")
-	sigs, err := m.signBlindedMessages(cashu.BlindedMessages{msg})
+	nOut := v.Int("nOut", 1, 2)
+	msgs := make(cashu.BlindedMessages, nOut)
+	for i := range msgs {
+		msgs[i] = vhFreeOutput(fmt.Sprintf("out%d", i))
+	}
+	sigs, err := m.signBlindedMessages(msgs)
 	if err == nil {
-		v.Assert(msg.Id == m.activeKeyset.Id, "C09 new signatures are only produced for requests naming the active keyset")
-		kp, ok := m.activeKeyset.Keys[msg.Amount]
-		v.Assert(ok, "C09 signed amount is a denomination of the active keyset")
-		B_, okB := vhParsePoint(msg.B_)
-		C_, okC := vhParsePoint(sigs[0].C_)
-		if ok && okB && okC {
-			v.Assert(v.And(v.SamePub(C_, vhMul(kp.PrivateKey, B_)), sigs[0].Amount == msg.Amount, sigs[0].Id == m.activeKeyset.Id),
-				"C09 the signature is k_active(amount) * B_ and carries the active keyset id and the amount")
+		v.Assert(len(sigs) == nOut, "C09 one signature per output")
+		for i, msg := range msgs {
+			if i >= len(sigs) {
+				break
+			}
+			v.Assert(msg.Id == m.activeKeyset.Id, "C09 new signatures are only produced for requests naming the active keyset (every output of the request)")
+			kp, ok := m.activeKeyset.Keys[msg.Amount]
+			v.Assert(ok, "C09 signed amount is a denomination of the active keyset")
+			B_, okB := vhParsePoint(msg.B_)
+			C_, okC := vhParsePoint(sigs[i].C_)
+			if ok && okB && okC {
+				v.Assert(v.And(v.SamePub(C_, vhMul(kp.PrivateKey, B_)), sigs[i].Amount == msg.Amount, sigs[i].Id == m.activeKeyset.Id),
+					"C09 the signature is k_active(amount) * B_ and carries the active keyset id and the amount")
+			}
 		}
 		v.Reach("signed")
 	} else {
 		v.Reach("refused")
-		B_, okB := vhParsePoint(msg.B_)
-		_, isKey := m.activeKeyset.Keys[msg.Amount]
-		_ = B_
-		v.Assert(v.Not(v.And(msg.Id == m.activeKeyset.Id, isKey, okB)), "C09 a well-formed request on the active keyset is signed")
+		allOk := true
+		for _, msg := range msgs {
+			_, okB := vhParsePoint(msg.B_)
+			_, isKey := m.activeKeyset.Keys[msg.Amount]
+			allOk = v.And(allOk, msg.Id == m.activeKeyset.Id, isKey, okB)
+		}
+		v.Assert(v.Not(allOk), "C09 a well-formed request on the active keyset is signed")
 	}
 	// fees: input_fee_ppk of each keyset drawn from the property's configurations
 	for i, id := range env.ids {
